@@ -67,6 +67,7 @@ class ConstEval:
         self._env: Dict[str, Dict[str, Any]] = {}
         self._prov: Dict[str, Dict[str, int]] = {}
         self._busy = set()
+        self.hook = None       # optional callable(node, local) -> value | NotImplemented, consulted at every node
 
     # ------------------------------------------------------------ module env
     def module_env(self, mod: ModuleInfo) -> Dict[str, Any]:
@@ -174,6 +175,10 @@ class ConstEval:
     # ------------------------------------------------------------ evaluation
     def eval(self, node, mod: ModuleInfo, local: Optional[Dict[str, Any]] = None):
         ev = lambda n: self.eval(n, mod, local)  # noqa: E731
+        if self.hook is not None:
+            hv = self.hook(node, local)
+            if hv is not NotImplemented:
+                return hv
         if isinstance(node, ast.Constant):
             return node.value
         if isinstance(node, ast.Name):
